@@ -2,7 +2,22 @@
 
 package console
 
+import "github.com/ProjectSerenity/firefly/kernel/device/video/console/font"
+
 // Export shims used by harnesses of other packages (tty, hal) to set up driver state directly.
 
 func VerifVgaSetFb(c *VgaTextConsole, fb []uint16) { c.fb = fb }
 func VerifVgaFb(c *VgaTextConsole) []uint16        { return c.fb }
+
+// VerifNewFb8 builds an 8 bpp VesaFbConsole over the given frame buffer slice, with a logo offset and a font, without
+// going through DriverInit (which maps physical memory).
+func VerifNewFb8(width, height, pitch, offsetY uint32, f *font.Font, fb []byte) *VesaFbConsole {
+	portWriteByteFn = func(uint16, uint8) {}
+	c := NewVesaFbConsole(width, height, 8, pitch, nil, 0)
+	c.loadDefaultPalette()
+	c.offsetY = offsetY
+	c.SetFont(f)
+	c.fb = fb
+	return c
+}
+func VerifFb(c *VesaFbConsole) []byte { return c.fb }
